@@ -319,6 +319,7 @@ structure SpecOut where
   data : List Nat            -- content of the view's range afterwards
   moved : Nat                -- bytes transferred (0: no controller call)
   isWrite : Bool
+  wrote : List Nat           -- the bytes written to memory at the position (`[]` unless a write)
   deriving Repr, DecidableEq
 
 /-- specification of the I/O operations on a live (open, not freed) view `v`
@@ -326,23 +327,50 @@ whose range currently holds `f.data` (`f = absFile mem v`) -/
 def specIO (v : View) (f : File) : Op → Option SpecOut
   | .read _ n =>
     let (f', bs, tr) := f.read n
-    some ⟨.bytes bs, tr, { v with offset := f'.pos }, f.data, bs.length, false⟩
+    some ⟨.bytes bs, tr, { v with offset := f'.pos }, f.data, bs.length, false, []⟩
   | .write _ d =>
     let (f', k, tr) := f.write d
-    some ⟨.int k, tr, { v with offset := f'.pos }, f'.data, k, true⟩
+    some ⟨.int k, tr, { v with offset := f'.pos }, f'.data, k, true, d.take k⟩
   | .seek _ n wh =>
     match f.seek n wh with
-    | some f' => some ⟨.none, false, { v with offset := f'.pos }, f.data, 0, false⟩
-    | none => some ⟨.err .valueError, false, v, f.data, 0, false⟩
-  | .tell _ => some ⟨.int f.pos, false, v, f.data, 0, false⟩
-  | .address _ => some ⟨.int (v.start + f.pos), false, v, f.data, 0, false⟩
-  | .flush _ => some ⟨.none, false, v, f.data, 0, false⟩
+    | some f' => some ⟨.none, false, { v with offset := f'.pos }, f.data, 0, false, []⟩
+    | none => some ⟨.err .valueError, false, v, f.data, 0, false, []⟩
+  | .tell _ => some ⟨.int f.pos, false, v, f.data, 0, false, []⟩
+  | .address _ => some ⟨.int (v.start + f.pos), false, v, f.data, 0, false, []⟩
+  | .flush _ => some ⟨.none, false, v, f.data, 0, false, []⟩
   | _ => none
 
 /-- specification of slicing: the new view covers exactly the named sub-range -/
 def specSlice (v : View) (a b : Option Int) : View :=
   let (lo, hi) := sliceRange v.len a b
   { start := v.start + lo, stop := v.start + hi, offset := 0, closed := false }
+
+/-! ## Predicates the theorems are stated with -/
+
+/-- a view lies inside `[lo, hi]` and is well-formed -/
+def Within (lo hi : Int) (v : View) : Prop := lo ≤ v.start ∧ v.start ≤ v.stop ∧ v.stop ≤ hi
+
+/-- world invariant: view 0 (the `MemoryIO`) spans exactly `[lo, hi)`, every view lies inside it -/
+def WF (lo hi : Int) (w : World) : Prop :=
+  (∃ r, w.views[0]? = some r ∧ r.start = lo ∧ r.stop = hi) ∧ ∀ v ∈ w.views, Within lo hi v
+
+/-- view `i` exists and has been closed -/
+def ClosedAt (w : World) (i : Nat) : Prop := ∃ v, w.views[i]? = some v ∧ v.closed = true
+
+/-- the controller call the specification allows: none when nothing is transferred, else one
+read / write of exactly the transferred bytes at the position -/
+def specAccess (w : World) (v : View) (s : SpecOut) : Option Access :=
+  if s.moved = 0 then none
+  else if s.isWrite then some (.write (v.start + v.offset) s.wrote w.x w.y 0)
+  else some (.read (v.start + v.offset) s.moved w.x w.y 0)
+
+/-- what it means for one call on view `v` (index `i`) to refine the file specification `s` -/
+def Refines (w : World) (i : Nat) (v : View) (s : SpecOut) (r : World × Out) : Prop :=
+  r.2 = ⟨s.ret, s.warn, specAccess w v s⟩ ∧
+  r.1.views = w.views.set i s.post ∧
+  (absFile r.1.mem s.post).data = s.data ∧
+  (∀ a, a < v.start ∨ v.stop ≤ a → r.1.mem a = w.mem a) ∧
+  r.1.freed = w.freed ∧ r.1.x = w.x ∧ r.1.y = w.y
 
 /-! ## The oracle: the specification evaluated on one observed call of the implementation -/
 
@@ -406,7 +434,7 @@ def checkObs (o : Obs) : List String :=
           (match o.out.access with
            | none => if s.moved = 0 then [] else ["file-transfer"]
            | some (.read a n ..) => if !s.isWrite ∧ n = s.moved ∧ a = v.start + v.offset then [] else ["file-transfer"]
-           | some (.write a d ..) => if s.isWrite ∧ d.length = s.moved ∧ a = v.start + v.offset then [] else ["file-transfer"]
+           | some (.write a d ..) => if s.isWrite ∧ d = s.wrote ∧ a = v.start + v.offset then [] else ["file-transfer"]
            | some (.free ..) => ["file-transfer"]) ++
           (if o.postFreed = o.preFreed then [] else ["file-result"])
     else
